@@ -1913,6 +1913,41 @@ func (m *repoManager) merge(parents []dvid.UUID, note string, mt MergeType) (dvi
 	}
 	m.repoMutex.RUnlock()
 
+	// Validate all parents before anything is created or linked: each must be a
+	// distinct, committed node of this repo.
+	seen := make(map[dvid.VersionID]struct{}, len(parents))
+	for _, parent := range parents {
+		v, err := m.versionFromUUID(parent)
+		if err != nil {
+			return dvid.NilUUID, err
+		}
+		if _, dup := seen[v]; dup {
+			return dvid.NilUUID, fmt.Errorf("parent %s listed more than once in merge", parent)
+		}
+		seen[v] = struct{}{}
+		r.RLock()
+		node, found := r.dag.nodes[v]
+		r.RUnlock()
+		if !found {
+			return dvid.NilUUID, ErrInvalidVersion
+		}
+		node.RLock()
+		locked := node.locked
+		node.RUnlock()
+		if !locked {
+			return dvid.NilUUID, ErrBranchUnlockedNode
+		}
+	}
+	switch mt {
+	case MergeConflictFree:
+	case MergeTypeSpecificAuto:
+		return dvid.NilUUID, fmt.Errorf("the type-specific auto merge has not been implemented yet")
+	case MergeExternalData:
+		return dvid.NilUUID, fmt.Errorf("merging with external data has not been implemented yet")
+	default:
+		return dvid.NilUUID, ErrBadMergeType
+	}
+
 	// Add the child node.  Since it's new and unavailable, no need to lock it.
 	childUUID, childV, err := m.newUUID(nil)
 	if err != nil {
